@@ -171,7 +171,7 @@ class C07(core.PropertyCheck):
                 out, diags = cfg.substitute(case["src"])
             except Exception as e:
                 return {"exc": type(e).__name__, "msg": str(e)[:200]}
-            return {"exc": None, "out": out, "diags": [[d.message.split('"')[1] if '"' in d.message else d.message, d.start[0]] for d in diags],
+            return {"exc": None, "out": out, "diags": [[getattr(d, "name", d.message), d.start[0]] for d in diags],
                     "consts": [[k, str(v)] for k, v in cfg.constants.items()], "messages": [d.message for d in diags]}
         used = set()
         pages = []
